@@ -98,7 +98,8 @@ def _fault_plan(r, enabled, bitmap=False):
             fs.append(
                 {
                     "pick": r.randint(0, 1 << 30),
-                    "kind": r.choice(["fail_before", "fail_after", "torn_efbig", "torn_kill", "torn_kill"]),
+                    "kind": r.choice(["fail_before", "fail_after", "torn_efbig", "torn_kill", "torn_kill", "kill_at_op"]),
+                    "k": r.choice([0, 0, 1, 1, 2, 3]),
                     "frac": r.choice([0.0, 0.5, 0.99, round(r.random(), 3)]),
                     "n_fallback": int(2 ** r.uniform(0, 16)),
                     "rules": r.choice([None, None, ["write_font"], ["picosvg"], ["nanoemoji.write_glyphmap"], ["write_bitmap", "pngquant", "zopflipng"], ["write_part_file", "write_combined"], ["write_fea"]]),
@@ -106,8 +107,8 @@ def _fault_plan(r, enabled, bitmap=False):
             )
         plan["faults"] = fs
     elif kind == "driver":
-        k = r.choice(["torn_efbig", "torn_kill", "torn_kill", "fail_before"])
-        plan["driver_fault"] = {"kind": k, "n": int(2 ** r.uniform(0, 15))}
+        k = r.choice(["torn_efbig", "torn_kill", "torn_kill", "fail_before", "kill_at_op", "kill_at_op"])
+        plan["driver_fault"] = {"kind": k, "n": int(2 ** r.uniform(0, 15)), "k": r.choice([0, 1, 1, 2, 2, 3, 4, 6])}
     elif kind == "kill":
         plan["kill_after"] = {"edges": r.randint(0, 10), "inflight": r.choice(["torn", "torn", "none", "complete"])}
     return plan
@@ -508,6 +509,12 @@ def sweep_cases(seed, scale, mini=False):
             for n in ((300, 2500) if mini else (0, 300, 1200, 2500, 6000)):
                 plans.append({"driver_fault": {"kind": kind, "n": n}})
         plans.append({"driver_fault": {"kind": "fail_before", "n": 0}})
+        for k in ((1, 2) if mini else range(0, 6)):  # the driver dies just before its k-th write / rename / remove
+            plans.append({"driver_fault": {"kind": "kill_at_op", "k": k, "n": 0}})
+        if not mini:
+            for s in steps:
+                for k in (0, 1):
+                    plans.append({"faults": [{"edge": s["out"], "kind": "kill_at_op", "k": k}]})
         for k in range(0, len(steps) + 1, 4 if mini else 2):
             plans.append({"kill_after": {"edges": k, "inflight": "torn"}})
         for pi, plan in enumerate(plans):
@@ -680,7 +687,7 @@ def extra_coverage(cases, results):
                 for s in n["steps"]:
                     if "out" in s and s.get("fault") and s["fault"]["kind"].startswith("torn") and s["status"] == ["exit", 0]:
                         probes["torn_planned_not_fired"] += 1
-    return {"probes": probes, "single_fault_sweep": {"exhaustive_over": "every dirty edge x {fail_before, fail_after, torn EFBIG/SIGXFSZ at 0, half, size-1} + driver crash points + kill after every 2nd edge, for the base states of sweep_bases()", "cases": probes["sweep_cases"]}}
+    return {"probes": probes, "single_fault_sweep": {"exhaustive_over": "every dirty edge x {fail_before, fail_after, torn EFBIG/SIGXFSZ at 0, half, size-1, killed before its 1st/2nd file-system mutation} + driver torn at 5 offsets / killed before each of its first 6 mutations / never started + invocation killed after every 2nd edge, for the base states of sweep_bases() (quick: reduced set, one base state)", "cases": probes["sweep_cases"]}}
 
 
 def selfcheck(tier, seed):
